@@ -100,7 +100,7 @@ def case(g, tier, ci):
         if ci % 8 == 1:
             ops.append({"op": "sq.setSR", "id": "s", "v": enc(SR * 2)})
     ops += [{"op": "sq.channels", "id": "s"},
-            {"op": "sq.seqx", "id": "s"}, {"op": "sq.seqx", "id": "s", "flags": True},
+            {"op": "sq.seqx", "id": "s"}, {"op": "sq.seqx", "id": "s", "flags": True}, {"op": "sq.seqx", "id": "s", "flags": True},
             {"op": "sq.forge", "id": "s", "delays": True, "filters": True, "time": False}]
     return ops
 
